@@ -413,9 +413,42 @@ func init() {
 	})
 }
 
+// c07Pinned: the first cases of every run are fixed witnesses of the shapes
+// behind the listed known findings (sibling DATE nodes under the documented
+// fuzzy matrix of Date.Equals), so that each run states whether they still
+// reproduce; rel is the second tree of the symmetry pair.
+func c07Pinned(i int) (spec, rel *gen.Spec) {
+	d := func(vs ...string) *gen.Spec {
+		s := &gen.Spec{Tag: "_X", Value: "pinned"}
+		for _, v := range vs {
+			s.Kids = append(s.Kids, &gen.Spec{Tag: "DATE", Value: v})
+		}
+		return s
+	}
+	switch i {
+	case 0: // equal in a chain but not transitively
+		return d("Sep 1943", "Bef. Oct 1943", "3 Sep 1943"), nil
+	case 1: // same directional constraint, different dates: equal in one direction only
+		return d("Bef. Oct 1943", "Bef. 1850"), nil
+	case 2:
+		return d("Aft. 1900", "Aft. 3 Sep 1943"), nil
+	case 3:
+		return d("Bef. Oct 1943", "4 Oct 1850"), d("Bef. 1850", "4 Oct 1850")
+	case 4:
+		return d("Aft. 1900", "4 Oct 1850"), d("Aft. 3 Sep 1943", "4 Oct 1850")
+	}
+	return nil, nil
+}
+
+const c07PinnedCases = 5
+
 func c07Run(c *fw.Ctx, i int) {
 	r := c.R
 	spec := c07Tree(r, r.Range(3, 24))
+	pinned, pinnedRel := c07Pinned(i)
+	if pinned != nil {
+		spec = pinned
+	}
 	n, doc := c07Node(spec)
 	if n == nil {
 		c.HarnessError("generated tree does not decode: " + gen.Text([]*gen.Spec{spec}))
@@ -545,6 +578,9 @@ func c07Run(c *fw.Ctx, i int) {
 	}
 	rel := cloneSpec(spec)
 	c07Respell(r, rel)
+	if pinnedRel != nil {
+		rel = pinnedRel
+	}
 	for _, pr := range [][2]*gen.Spec{{spec, other}, {spec, rel}} {
 		a, _ := c07Node(pr[0])
 		b, _ := c07Node(pr[1])
